@@ -249,7 +249,13 @@ func (batch *Batch) readMessage(
 	offset, lastOffset, timestamp, headers, err = batch.msgs.readMessage(batch.offset, key, val)
 	switch {
 	case err == nil:
-		batch.offset = offset + 1
+		// A batch may start before the requested offset, its first messages
+		// are read and skipped by the caller; they must not move the offset
+		// backwards, or it is left behind the position that was requested
+		// when the rest of the response turns out to be truncated.
+		if offset >= batch.offset {
+			batch.offset = offset + 1
+		}
 		batch.lastOffset = lastOffset
 	case errors.Is(err, errShortRead):
 		// As an "optimization" kafka truncates the returned response after
